@@ -9,8 +9,8 @@ VERIF = os.path.dirname(os.path.dirname(os.path.abspath(__file__)))
 REPO = os.environ.get("VERIF_REPO", "/repo")
 PYROOT = os.path.join(REPO, "python")
 SPEC = os.path.join(VERIF, "spec")
-EVIDENCE = os.path.join(VERIF, "evidence")
-REPLAYS = os.path.join(VERIF, "replays")
+EVIDENCE = os.environ.get("VERIF_EVIDENCE") or os.path.join(VERIF, "evidence")
+REPLAYS = os.environ.get("VERIF_REPLAYS") or os.path.join(VERIF, "replays")
 JAR_CP = "/opt/veriftools/tla/tla2tools.jar:/opt/veriftools/tla/CommunityModules-deps.jar"
 SEED = int(os.environ.get("VERIF_SEED", "0") or 0)
 CORES = os.cpu_count() or 4
